@@ -1,2 +1,7 @@
 // ===== SHIM: TypeGenerator keeps only the field resolve_type touches (`settings` is dropped) =====
 pub struct TypeGenerator<'a> { pub type_registry: &'a PortableRegistry }
+
+impl<'a> TypeGenerator<'a> {
+    /// same body as upstream (`self.type_registry`)
+    pub fn types(&self) -> (r: &PortableRegistry) ensures r == self.type_registry { self.type_registry }
+}
